@@ -9,8 +9,9 @@ A `vtkRectilinearGrid` is modelled by what a consumer can read from it: the poin
 (`SetDimensions`), the three coordinate arrays and the named cell-data arrays (name,
 number of components, integer/floating type, flat tuple-major values).  `locate` is the
 contract of a rectilinear grid (interval search per axis + VTK's structured cell id
-`i + nx·(j + ny·k)`); VTK's writers/readers are modelled as the identity on that view
-(binary, XML) or as a value-wise rounding `rnd` of all floating numbers (text).
+`i + nx·(j + ny·k)`); VTK's XML writer/reader pair is modelled as the identity on that view,
+the legacy pair as the reordering `legacyOrder` of the cell arrays (active attributes first)
+followed, in the text form, by a value-wise rounding `rnd` of all floating numbers.
 
 The `norm` array holds the **squared** norm (the square root is applied by the harness; it
 is the only non-rational leaf on this code path).
@@ -162,16 +163,16 @@ def defaultVmap (nvdim : Nat) (dims : List String) (vdims : Option (List String)
   else []
 
 /-- `Field(mesh, nvdim=dim, value=array, vdims=vdims, valid=valid)` with an array of shape
-`(*n, dim)` and a mask of shape `n` -/
+`(*n, dim)` and a mask of shape `n` (since repo fix d1932c87 an unlabelled field with as many
+components as the mesh has axes is accepted: its component-to-axis mapping is empty) -/
 def mkField (m : Mesh) (dim : Nat) (data : NDA (List Rat)) (valid : NDA Bool)
     (vdims : Option (List String)) : M Fld :=
   if dim < 1 then .error .value
   else match vdimsSet dim vdims with
     | .error e => .error e
     | .ok vd =>
-      if dim ≠ 1 ∧ dim = m.region.dims.length ∧ vd = none then .error .type
-      else .ok { mesh := m, nvdim := dim, data := data, valid := valid, vdims := vd,
-                 vmap := defaultVmap dim m.region.dims vd, unit := none }
+      .ok { mesh := m, nvdim := dim, data := data, valid := valid, vdims := vd,
+            vmap := defaultVmap dim m.region.dims vd, unit := none }
 
 /-! ## subregion side-car (`<file>.subregions.json`) -/
 
@@ -374,17 +375,57 @@ def repOf (s : String) : M Rep :=
   else if s = "bin" ∨ s = "bin8" ∨ s = "txt" then (if s = "txt" then .ok .txt else .ok .bin)
   else .error .value
 
+/-- value-wise image of a grid's floating numbers (integer arrays are written exactly) -/
+def mapGrid (r : Rat → Rat) (g : Grid) : Grid :=
+  { g with coords := g.coords.map fun X => X.map r,
+           cell := g.cell.map fun a => if a.int then a else { a with vals := a.vals.map r } }
+
+/-- `vtkDataWriter::WriteCellData` of the legacy (`bin` / `txt`) writer: the active scalars
+and the active vectors go first, each into a section of its own (`SCALARS name type` +
+`LOOKUP_TABLE default`, `VECTORS name type`), then `FIELD FieldData k` holds the `k` remaining
+arrays in index order.  `vtkDataReader` adds the arrays in file order, so this is the order of
+the arrays in the grid a VTK reader returns for a legacy file (the XML writer keeps the order). -/
+def legacyOrder (act : Option String × Option String) (cell : List VArr) : List VArr :=
+  (match act.1 with
+   | some s => cell.filter fun a => a.name == s
+   | none => []) ++
+  ((match act.2 with
+    | some v => cell.filter fun a => a.name == v
+    | none => []) ++
+   cell.filter fun a => !(some a.name == act.1) && !(some a.name == act.2))
+
+/-- one data section of a legacy file: its keyword and the array names it holds -/
+inductive Sect where
+  | scalars (name : String)
+  | vectors (name : String)
+  | field (names : List String)
+  deriving DecidableEq, Repr, Inhabited
+
+/-- the `CELL_DATA` sections of the legacy file, in file order (a `FIELD` block is written only
+when an array is left for it) -/
+def legacySections (act : Option String × Option String) (cell : List VArr) : List Sect :=
+  (match act.1 with
+   | some s => (cell.filter fun a => a.name == s).map fun a => Sect.scalars a.name
+   | none => []) ++
+  ((match act.2 with
+    | some v => (cell.filter fun a => a.name == v).map fun a => Sect.vectors a.name
+    | none => []) ++
+   (if (cell.filter fun a => !(some a.name == act.1) && !(some a.name == act.2)).isEmpty then []
+    else [Sect.field ((cell.filter fun a => !(some a.name == act.1) && !(some a.name == act.2)).map fun a => a.name)]))
+
+/-- the grid a VTK reader returns for the file a writer of representation `r` makes of `g` -/
+def writtenGrid (r : Rep) (act : Option String × Option String) (rnd : Rat → Rat) (g : Grid) : Grid :=
+  match r with
+  | .xml => g
+  | .bin => { g with cell := legacyOrder act g.cell }
+  | .txt => mapGrid rnd { g with cell := legacyOrder act g.cell }
+
 /-- what a VTK reader returns for the written file, plus the side-car -/
 structure VFile where
   rep : Rep
   grid : Grid
   sidecar : Option (List (String × Region))
   deriving DecidableEq, Repr, Inhabited
-
-/-- value-wise image of a grid's floating numbers (integer arrays are written exactly) -/
-def mapGrid (r : Rat → Rat) (g : Grid) : Grid :=
-  { g with coords := g.coords.map fun X => X.map r,
-           cell := g.cell.map fun a => if a.int then a else { a with vals := a.vals.map r } }
 
 /-- `Field.to_file("x.vtk", representation, save_subregions)`: writer selection, `to_vtk`,
 then the side-car (only when the mesh has subregions); `rnd` is the text writer's rounding -/
@@ -395,7 +436,7 @@ def toFile (f : Fld) (rep : String) (saveSubs : Bool) (rnd : Rat → Rat) : M VF
     match toVtk f with
     | .error e => .error e
     | .ok g =>
-      .ok { rep := r, grid := if r = .txt then mapGrid rnd g else g,
+      .ok { rep := r, grid := writtenGrid r (activeAttr f) rnd g,
             sidecar := if saveSubs && !f.mesh.subs.isEmpty then some f.mesh.subs else none }
 
 /-- `Field.from_file("x.vtk")`: a grid without cell data is handed to the legacy reader -/
@@ -527,6 +568,71 @@ def readFlag (g : Grid) (vi : Option Nat) (t : Nat) : Bool :=
   match vi with
   | none => true
   | some q => decide ((g.cell.getD q default).vals.getD t 0 ≠ 0)
+
+/-- the last array of a list that is called `nm` (what `GetArray(idx)` returns for the index the
+reader's name loop ends with) -/
+def lastNamed (nm : String) (l : List VArr) : Option VArr := (l.filter fun a => a.name == nm).getLast?
+
+/-- names the reader takes for component labels: everything but `field`, `valid`, `norm` -/
+def isLabelName (s : String) : Bool := s != "field" && s != "valid" && s != "norm"
+
+/-- arrays the reader takes for component scalars -/
+def isLabel (a : VArr) : Bool := a.name != "field" && a.name != "valid" && a.name != "norm"
+
+/-- the label names of a list of arrays, in file order -/
+def labelNames (l : List VArr) : List String := (l.filter isLabel).map fun a => a.name
+
+/-- the mesh `Mesh(p1=p1, p2=p2, n=n)` builds from three-axis bounds: corners normalised, default
+names, units and tolerance, no boundary condition, no subregions -/
+def boundsMesh (p1 p2 : List Rat) (n : List Nat) : Mesh :=
+  { region := plainRegion (tab 3 fun a => min (p1.getD a 0) (p2.getD a 0)) (tab 3 fun a => max (p1.getD a 0) (p2.getD a 0)),
+    n := n, bc := "", subs := [] }
+
+/-- a 3-d field as the `Field` constructor leaves it when NOTHING is assumed about the labels
+beyond what the `vdims` setter enforces for every field: as many as components, distinct -/
+structure WFc (f : Fld) (nx ny nz : Nat) : Prop where
+  mesh : f.mesh.Inv
+  n : f.mesh.n = [nx, ny, nz]
+  dshape : f.data.shape = [nx, ny, nz]
+  vshape : f.valid.shape = [nx, ny, nz]
+  nv : 1 ≤ f.nvdim
+  labels : 1 < f.nvdim → ∃ vs, f.vdims = some vs ∧ vs.length = f.nvdim ∧ hasDup vs = false
+
+/-- the data section of a legacy file after the marker: which of its lines the reader's loop
+`for i, line in zip(mesh.indices, lines)` accepts — it looks at the first `cnt` lines only;
+a line starting with a letter is skipped (its cell keeps the initial zero), a numeric line must
+hold `dim` numbers or one (broadcast), an empty or otherwise non-numeric line raises -/
+def DataOk (dim cnt : Nat) (body : List LLine) : Prop :=
+  ∀ q, q < cnt → q < body.length →
+    body.getD q .junk ≠ .junk ∧ ∀ xs, body.getD q .junk = .nums xs → xs.length = dim ∨ xs.length = 1
+
+/-- the value the legacy reader stores for data line `l` (`none`: the cell keeps its zero) -/
+def lineValue (dim : Nat) : LLine → Option (List Rat)
+  | .nums xs => if xs.length = dim then some xs else some (List.replicate dim (xs.getD 0 0))
+  | _ => none
+
+/-- what cell number `t` (in x-fastest order) holds after the legacy reader's data loop over the
+lines `body`: the value of data line `t` if there is one and it is numeric, its previous content
+`old` otherwise (line missing: truncated section; line starting with a letter: skipped) -/
+def cellAfter (dim : Nat) (body : List LLine) (t : Nat) (old : List Rat) : List Rat :=
+  if t < body.length then (lineValue dim (body.getD t .junk)).getD old else old
+
+/-- the old layout with coordinate blocks that may run over several lines and ANY lines after
+the data marker (`body`: data lines, truncated or not, and whatever follows) -/
+def legacyFileBody (pre mid : List LLine) (N : Nat → Nat) (first : Nat → List Rat) (cont : Nat → List LLine)
+    (vec : Bool) (body : List LLine) : List LLine :=
+  pre ++ ((.coords (N 0) :: .nums (first 0) :: cont 0) ++ ((.coords (N 1) :: .nums (first 1) :: cont 1) ++
+    ((.coords (N 2) :: .nums (first 2) :: cont 2) ++
+      (mid ++ ((if vec then [.vectors] else [.scalars, .alpha]) ++ body)))))
+
+/-- every side-car file of the directory holds at least one subregion (`to_file` writes a
+side-car only for a mesh that has subregions) -/
+def CarsNonempty (d : Dir) : Prop := ∀ p ∈ d.json, p.2 ≠ []
+
+/-- the call is a successful `to_file` under `name` that writes a side-car -/
+def DOp.writesCar (rnd : Rat → Rat) (name : String) : DOp → Prop
+  | .write n f rep save => n = name ∧ save = true ∧ f.mesh.subs.isEmpty = false ∧ ∃ v, toFile f rep save rnd = .ok v
+  | .read _ => False
 
 /-- the component arrays `to_vtk` adds -/
 def comps (f : Fld) : List VArr :=
